@@ -56,6 +56,9 @@ CHECKS = {
  'C16': ('libx+dfax', 'exhaustive enumeration of (name x operation/mask x uid relation x qualifier) records and one-aspect pairs through the real log-to-rules pipeline; membership of the recorded name decided by walking it on the DFA the reference parser compiles from the emitted rule over the shipped tunables',
          'Every record of the alphabet is turned into rules by the real code; for file records the recorded path is run through the automaton AppArmor itself would use, so no glob semantics are re-implemented; other classes are checked attribute by attribute with an independent tokenizer.',
          'apparmor_parser 3.0.8; tunables of a real build tree; permission bit layout read off compiled one-letter rules', 'DESIGN.md §4 C16'),
+ 'C07': ('cfgx+libx', 'explicit enumeration of all built files of all configurations for surviving directives; bounded-exhaustive enumeration of directive arguments (864 dbus combinations, 35 exec, 20 stack layouts) and of every shipped directive through the real directive.Run inside a prepared tree, against the documented shape / a line-based reference model, expansions parsed by the reference parser',
+         'Part A enumerates the finite set of built files (all 180 trees in the thorough tier); parts B-D run every argument combination of a stated alphabet and every shipped use on the real code.',
+         'independent tokenizer (engine/scan.py); exec_path values from the reference parser\'s own variable expansion', 'DESIGN.md §4 C07'),
 }
 PENDING = {}
 def main():
